@@ -2,8 +2,8 @@
   Props/C03.lean — property C03: the state-transition matrix is the derivative of the flow and is symplectic.
   Uses the Jacobian / vector field traced for C01 (`Gen.C01`, regenerated on every run) and the wiring of
   `_compute_stm` / `_DirectedSystem` traced into `Gen.C03`.
-  Background theorems (not formalised): C¹ dependence of ODE flows on initial data (the solution of Φ' = Df(x(t))Φ,
-  Φ(0)=I is ∂flow/∂x₀) and ODE uniqueness (for `M f(x₀) = f(x₀)` on a periodic orbit).
+  Background theorem (not formalised): C¹ dependence of ODE flows on initial data (the solution of Φ' = Df(x(t))Φ,
+  Φ(0)=I is ∂flow/∂x₀).  `M f(x₀) = f(x₀)` on a periodic orbit IS proved (`monodromy_fixes_velocity`).
 -/
 import HitenModel.Gen.C03
 import HitenModel.Props.C01
@@ -114,8 +114,8 @@ theorem stm_symplectic (x : ℝ → ℕ → ℝ) (Φ : ℝ → Matrix (Fin 6) (F
 /-! ### the vector field solves the variational equation -/
 
 /-- **field_solves_variational**: along the flow, `d/dt f_i(x(t)) = Σ_j ∂f_i/∂x_j · f_j`: the velocity vector is a
-solution of `w' = Df(x(t)) w`; with ODE uniqueness (background) `Φ(t) f(x₀) = f(x(t))`, and `M f(x₀) = f(x₀)` on a
-periodic orbit. -/
+solution of `w' = Df(x(t)) w`; `stm_transports_field` / `monodromy_fixes_velocity` below conclude `Φ(t) f(x₀) = f(x(t))`
+and `M f(x₀) = f(x₀)` on a periodic orbit. -/
 theorem field_solves_variational (ρ : ℕ → ℝ) (h0 : 0 < eval ρ sq0) (h1 : 0 < eval ρ sq1) (i : ℕ) (hi : i < 6) :
     DT ρ (C01.fieldDir ρ) (accel i) =
       eval ρ (jac (6 * i + 0)) * eval ρ (accel 0) + eval ρ (jac (6 * i + 1)) * eval ρ (accel 1) +
@@ -130,6 +130,62 @@ theorem field_solves_variational (ρ : ℕ → ℝ) (h0 : 0 < eval ρ sq0) (h1 :
      try simp only [sq0, sq1, DT, eval, C01.fieldDir, accel, Nat.reduceSub]
      try field_simp
      try ring)
+
+/-- the velocity vector `f(x)` of the traced equations of motion, as a vector -/
+noncomputable def fieldV (ρ : ℕ → ℝ) : Fin 6 → ℝ := fun i => eval ρ (accel i.val)
+
+/-- **stm_transports_field**: let `x(t)` be a solution of the traced equations of motion (constant `mu`) that stays away
+from the primaries and `Φ` the matrix curve `_compute_stm` integrates (`Φ' = Df(x(t))Φ`, `Φ(0) = I`).  Then
+`f(x(t)) = Φ(t) f(x₀)` for every `t` — proved WITHOUT appealing to an ODE-uniqueness theorem: `Φᵀ Ω f(x(t))` has zero
+derivative because `Df` is infinitesimally symplectic (`variational_solution_transport`). -/
+theorem stm_transports_field (x : ℝ → ℕ → ℝ) (Φ : ℝ → Matrix (Fin 6) (Fin 6) ℝ)
+    (hsol : ∀ t j, HasDerivAt (fun s => x s j) (C01.fieldDir (x t) j) t)
+    (h0 : ∀ t, 0 < eval (x t) sq0) (h1 : ∀ t, 0 < eval (x t) sq1)
+    (hΦ : ∀ t i j, HasDerivAt (fun s => Φ s i j) ((jacM (x t) * Φ t) i j) t) (hI : Φ 0 = 1) (t : ℝ) :
+    fieldV (x t) = (Φ t).mulVec (fieldV (x 0)) := by
+  refine variational_solution_transport Φ (fun t => jacM (x t)) Ω6 Ω6_det_unit hΦ
+    (fun t => jac_infinitesimally_symplectic (x t) (h0 t) (h1 t)) hI (fun s => fieldV (x s)) ?_ t
+  intro t i
+  have hd := DT_sound x (C01.fieldDir (x t)) t (hsol t) (accel i.val) (C01.accel_WD (x t) (h0 t) (h1 t) i.val i.isLt)
+  rw [field_solves_variational (x t) (h0 t) (h1 t) i.val i.isLt] at hd
+  have e : (jacM (x t)).mulVec (fieldV (x t)) i =
+      eval (x t) (jac (6 * i.val + 0)) * eval (x t) (accel 0) + eval (x t) (jac (6 * i.val + 1)) * eval (x t) (accel 1) +
+      eval (x t) (jac (6 * i.val + 2)) * eval (x t) (accel 2) + eval (x t) (jac (6 * i.val + 3)) * eval (x t) (accel 3) +
+      eval (x t) (jac (6 * i.val + 4)) * eval (x t) (accel 4) + eval (x t) (jac (6 * i.val + 5)) * eval (x t) (accel 5) := by
+    simp [Matrix.mulVec, dotProduct, Fin.sum_univ_six, jacM, fieldV]
+  rw [e]
+  exact hd
+
+/-- **monodromy_fixes_velocity**: on a periodic orbit (`x(T) = x(0)`) the monodromy matrix `M = Φ(T)` maps the orbit's
+velocity vector to itself: `M f(x₀) = f(x₀)` (the trivial Floquet multiplier 1). -/
+theorem monodromy_fixes_velocity (x : ℝ → ℕ → ℝ) (Φ : ℝ → Matrix (Fin 6) (Fin 6) ℝ) (T : ℝ)
+    (hsol : ∀ t j, HasDerivAt (fun s => x s j) (C01.fieldDir (x t) j) t)
+    (h0 : ∀ t, 0 < eval (x t) sq0) (h1 : ∀ t, 0 < eval (x t) sq1)
+    (hΦ : ∀ t i j, HasDerivAt (fun s => Φ s i j) ((jacM (x t) * Φ t) i j) t) (hI : Φ 0 = 1)
+    (hper : x T = x 0) :
+    (Φ T).mulVec (fieldV (x 0)) = fieldV (x 0) := by
+  have := stm_transports_field x Φ hsol h0 h1 hΦ hI T
+  rw [hper] at this
+  exact this.symm
+
+/-- the triangular point L4 for `mu = 1/2` -/
+noncomputable def l4half : ℕ → ℝ := fun k => if k = 1 then Real.sqrt 3 / 2 else if k = 6 then 1 / 2 else 0
+
+/-- non-vacuity of `stm_transports_field` / `monodromy_fixes_velocity`: the constant curve at L4 (`mu = 1/2`) is a periodic
+solution away from the primaries (existence of non-constant solutions and of `Φ` is Picard–Lindelöf, not needed here) -/
+example : (∀ t j, HasDerivAt (fun _ : ℝ => l4half j) (C01.fieldDir l4half j) t) ∧
+    0 < eval l4half sq0 ∧ 0 < eval l4half sq1 := by
+  have h3 : Real.sqrt 3 ^ 2 = 3 := Real.sq_sqrt (by norm_num)
+  have e0 : eval l4half sq0 = 1 := by
+    rw [C01.sq0_is_r1_sq]; simp [l4half]; nlinarith
+  have e1 : eval l4half sq1 = 1 := by
+    rw [C01.sq1_is_r2_sq]; simp [l4half]; nlinarith
+  have hf : ∀ j, C01.fieldDir l4half j = 0 := by
+    intro j
+    rcases j with _|_|_|_|_|_|j <;>
+      simp [C01.fieldDir, accel, eval, e0, e1, l4half] <;> ring
+  refine ⟨fun t j => ?_, by rw [e0]; norm_num, by rw [e1]; norm_num⟩
+  rw [hf j]; exact hasDerivAt_const t _
 
 /-- non-vacuity of the symplecticity hypotheses: the identity is symplectic and `Ω` is what the docstring says -/
 example : (1 : Matrix (Fin 6) (Fin 6) ℝ)ᵀ * Ω6 * 1 = Ω6 ∧ Ω6 0 1 = -2 ∧ Ω6 0 3 = 1 := by
